@@ -96,6 +96,20 @@ class Scenario:
             tail = ("block",) if context == "threading" else ("forever", 0.9)
             kit.submit(self._note({"id": "subx%d-%s" % (index, context), "flavour": context,
                                    "steps": steps + [tail]}))
+        for index, (blocked, busy) in enumerate(params.get("cross", ())):
+            # a payload of flavour ``blocked`` waits in execute() for a payload that runs in
+            # flavour ``busy``; meanwhile a payload of flavour ``busy`` adopts one of flavour
+            # ``blocked``: adopt must return without waiting for the blocked thread
+            inner = {"id": "inner%d-%s" % (index, busy), "flavour": busy,
+                     "steps": [("sleep", 0.5)]}
+            tail = ("block",) if blocked == "threading" else ("forever", 0.9)
+            kit.submit(self._note({"id": "exec%d-%s" % (index, blocked), "flavour": blocked,
+                                   "steps": [("execute", inner), tail]}))
+            self._note(inner)
+            target = self._note(worker("x%d-%s" % (index, blocked), blocked, ARGS[2]))
+            tail = ("block",) if busy == "threading" else ("forever", 0.9)
+            kit.submit(self._note({"id": "subc%d-%s" % (index, busy), "flavour": busy,
+                                   "steps": [("sleep", 0.2), ("adopt", target), tail]}))
         for index, (context, flavour, shape) in enumerate(params.get("shapes", ())):
             # service classes of a particular make; the singleton is constructed twice
             desc = self._note(dict(worker("shape%d-%s-%s" % (index, shape, flavour), flavour),
@@ -257,7 +271,10 @@ class Scenario:
                         "%s:wrong-arguments:%s" % (label, flavour),
                         "%s received args=%r kwargs=%r, submitted args=%r kwargs=%r"
                         % (ident, data["args"], data["kwargs"], want_args, want_kwargs)))
-                contexts[flavour].add((who, data["loop"], data["token"]))
+                if not ident.startswith("inner"):
+                    # (payloads run through execute() are C10's business: a thread flavour
+                    # execute runs in the caller's thread)
+                    contexts[flavour].add((who, data["loop"], data["token"]))
         for ident in starts:
             if ident not in everything:
                 violations.append(("%s:unknown-start" % label, "%s started" % ident))
@@ -327,6 +344,9 @@ def scenario_params(tier):
     for context, flavour, shape in itertools.product(
             ["before", "outside", "trio"], FLAVOURS, ["cached", "redecorated", "subclass"]):
         out.append({"shapes": [(context, flavour, shape)]})
+    # 3d. adopt into a flavour whose thread is waiting in execute() for the adopter's flavour
+    for blocked, busy in itertools.permutations(FLAVOURS, 2):
+        out.append({"cross": [(blocked, busy)]})
     # 3b. the very same callable adopted several times; a service replaced by a new one
     for context, flavour in itertools.product(["queued"] + CONTEXTS, FLAVOURS):
         out.append({"repeat": [(context, flavour, 3)]})
